@@ -111,6 +111,7 @@ where M: EncoderModel<PREC, Symbol = usize, Probability = u8> + DecoderModel<PRE
             assert!(s < n, "C09: model accepted a symbol outside its support");
             if s < n {
                 let (cum, p) = (cum as u32, p.get() as u32);
+                assert!(p != 0, "C20/C03: a zero value inside a non-zero probability type");
                 assert!(p >= 1 && cum + p <= total && p < total, "C03: model entry is not a proper sub-interval of [0,2^P)");
                 if s == 0 { assert!(cum == 0, "C03: first symbol must start at 0"); }
                 if s + 1 == n { assert!(cum + p == total, "C03: last symbol must end at 2^P"); }
@@ -357,6 +358,59 @@ pub fn quantizer_symbol_table_i8_u8_p8() {
     }
 }
 
+/// C05 + C03 (bounded: one concrete step CDF): a quantised model over a SIGNED symbol type that is
+/// narrower than the probability type, with a support wider than half the symbol type
+/// (-100..=100 in i8, u16 probabilities): `symbol - min` exceeds i8::MAX for the upper rows, so
+/// every place that turns it into a probability must mask the sign extension.  All 201 rows of
+/// symbol_table equal the encoder view, and the rows tile [0, 2^12) consecutively.
+#[cfg_attr(kani, kani::proof)]
+#[cfg_attr(kani, kani::unwind(204))]
+pub fn quantizer_symbol_table_i8_u16_wide() {
+    let q = LeakyQuantizer::<f64, i8, u16, 12>::new(-100..=100);
+    let m = q.quantize(StepCdf { t: 0.0, hint: 0.0 });
+    let mut it = m.symbol_table();
+    let mut k: i16 = -100; let mut next: u32 = 0;
+    while k <= 100 {
+        let row = match it.next() { Some(r) => r, None => { assert!(false, "C05: quantised symbol_table ends before the support does"); return; } };
+        match m.left_cumulative_and_probability(k as i8) {
+            Some((c, p)) => {
+                assert!(row == (k as i8, c, p), "C05: quantised symbol_table row differs from the encoder view");
+                assert!(c as u32 == next && p.get() != 0, "C03: quantised intervals are not consecutive and non-empty");
+                next = c as u32 + p.get() as u32;
+            }
+            None => assert!(false, "C03: quantised model reports an in-support symbol as impossible"),
+        }
+        k += 1;
+    }
+    assert!(next == 1 << 12, "C03: quantised intervals do not end at 2^P");
+    assert!(it.next().is_none(), "C05: quantised symbol_table continues past the support");
+}
+
+/// C03 (complete for this support and step CDFs): encoder view of a quantised model over a signed
+/// symbol type narrower than the probability type, support wider than half the symbol type
+/// (-100..=100 in i8, u16 probabilities): for EVERY symbol of the support and every step threshold,
+/// the interval is non-empty, starts at 0 for the first symbol, ends at 2^P for the last, and the
+/// next symbol's interval starts where it ends; symbols outside the support are impossible.
+#[cfg_attr(kani, kani::proof)]
+#[cfg_attr(kani, kani::unwind(4))]
+pub fn quantizer_view_i8_u16_wide() {
+    let t: i16 = any();
+    let m = LeakyQuantizer::<f64, i8, u16, 12>::new(-100..=100).quantize(StepCdf { t: t as f64, hint: 0.0 });
+    let s: i8 = any();
+    match m.left_cumulative_and_probability(s) {
+        None => assert!(s < -100 || s > 100, "C03: quantised model reports an in-support symbol as impossible"),
+        Some((c, p)) => {
+            assert!(s >= -100 && s <= 100, "C09/C03: quantised model accepted a symbol outside its support");
+            let end = c as u32 + p.get() as u32;
+            assert!(p.get() != 0 && end <= 1 << 12 && (p.get() as u32) < 1 << 12, "C03: quantised model entry is not a proper sub-interval of [0,2^P)");
+            if s == -100 { assert!(c == 0, "C03: first symbol must start at 0"); }
+            if s == 100 { assert!(end == 1 << 12, "C03: last symbol must end at 2^P"); }
+            else if s >= -100 && s < 100 { assert!(m.left_cumulative_and_probability(s + 1).map(|x| x.0 as u32) == Some(end), "C03: quantised intervals not consecutive"); }
+        }
+    }
+    cover!(s > 27, "symbol - min exceeds i8::MAX");
+}
+
 /// C18: floating_point_probability(symbol) * 2^P == probability exactly (one exact power-of-two
 /// division), for every entry of every uniform model; 0.0 outside the support.
 #[cfg_attr(kani, kani::proof)]
@@ -470,6 +524,12 @@ pub fn lazy_vs_eager_small_p8() {
         assert!(l.left_cumulative_and_probability(s) == e.left_cumulative_and_probability(s), "C05: lazy model differs from eager model (encoder view)");
         let q: u8 = any();
         assert!(l.quantile_function(q) == e.quantile_function(q), "C05: lazy model differs from eager model (decoder view)");
+        // the lazy model on its own terms (C03 / C10): the decoded symbol is in the support, its interval holds
+        // the quantile and is the one the encoder view reports
+        let (sq, cq, pq) = l.quantile_function(q);
+        assert!(sq < 3, "C10/C03: lazy model decoded a symbol outside its support");
+        assert!(cq <= q && (q as u32) < cq as u32 + pq.get() as u32, "C03/C10: quantile not inside the interval returned by the lazy model");
+        assert!(l.left_cumulative_and_probability(sq) == Some((cq, pq)), "C03/C10: lazy quantile_function disagrees with its encoder view");
         cover!(p[0] == 0.0, "leading zero entry");
     }
 }
@@ -496,6 +556,27 @@ quantizer_search_fixed!(quantizer_search_u8_full, u8, 0, 255, 40);
 quantizer_search_fixed!(quantizer_search_u8_top, u8, 100, 255, 40);
 quantizer_search_fixed!(quantizer_search_i8_full, i8, -128, 127, 40);
 quantizer_search_fixed!(quantizer_search_i8_mid, i8, -10, 20, 40);
+
+/// C10 ("never ... loops") / C03, termination contract: on a WIDE support of a signed symbol type
+/// (-100..=100 in i8: wider than half the type, so the exponential search step reaches the sign
+/// bit) quantile_function returns, within the harness' unwind bound, for every step threshold,
+/// every quantile and inverse hints below / inside / above the support.  The unwind bound (40) is
+/// the contract: a terminating search needs <= BITS doublings, <= BITS halvings of the step in the
+/// inner loop and <= BITS binary-search steps per phase, i.e. < 3 * 8 + 2 iterations of any loop.
+#[cfg_attr(kani, kani::proof)]
+#[cfg_attr(kani, kani::unwind(40))]
+pub fn quantizer_search_i8_wide() {
+    let lo: i8 = -100; let hi: i8 = 100;
+    let t: i16 = any();
+    let h: u8 = any(); assume(h < 3);
+    let hint: f64 = if h == 0 { -200.0 } else if h == 1 { 0.0 } else { 200.0 };
+    let m = LeakyQuantizer::<f64, i8, u8, 8>::new(lo..=hi).quantize(StepCdf { t: t as f64, hint });
+    let q: u8 = any();
+    let (s, c, p) = m.quantile_function(q);
+    assert!(s >= lo && s <= hi, "C10/C03: quantised model decoded a symbol outside its support");
+    assert!(c <= q && (q as u32) < c as u32 + p.get() as u32, "C03: quantile not inside the interval returned by the quantised model");
+    assert!(m.left_cumulative_and_probability(s) == Some((c, p)), "C03: quantised quantile_function disagrees with the encoder view");
+}
 
 /// C19: float table constructors refuse NaN and negative entries whatever normalisation the caller
 /// supplies (3 symbolic f32 entries, symbolic Option<normalization>).
